@@ -102,6 +102,27 @@ fn oracle_table<T: ColumnType>(records: &[Record<T>], case: &Value) -> Value {
             texts.push(format!("connect failed {}", k.as_u64().unwrap()));
         }
     }
+    // every message substitution can produce for the SQL of these records
+    let name_re = regex::Regex::new(r"\$\{?([A-Za-z0-9_]+)").unwrap();
+    for r in records {
+        let sql = match r {
+            Record::Statement { sql, .. } | Record::Query { sql, .. } => sql,
+            _ => continue,
+        };
+        let parsed = catch_unwind(AssertUnwindSafe(|| subst::Template::from_str(sql).map(|_| ()).map_err(|e| e.to_string())));
+        if let Ok(Err(msg)) = parsed {
+            let t = format!("substitution failed: {msg}");
+            if !texts.contains(&t) {
+                texts.push(t);
+            }
+        }
+        for c in name_re.captures_iter(sql) {
+            let t = format!("substitution failed: No such variable: ${}", &c[1]);
+            if !texts.contains(&t) {
+                texts.push(t);
+            }
+        }
+    }
     let mut out = vec![];
     for p in &pats {
         if let Ok(re) = regex::Regex::new(p) {
